@@ -314,14 +314,23 @@ class PipeGen(object):
         op = self.r.choice(['$addFields', '$addFields', '$set'])
         spec = {}
         for _ in range(self.r.choice([1, 1, 2, 3])):
+            # (`q` is an array of documents and scalars, `l` / `m` arrays of scalars, `x` and `k`
+            # anything: a dotted name through them writes into every item)
             name = self.r.choice(['r', 'r2', 'a', 's', 'l', 'd', 'k', 'd.z', 'd.n', 'n.m', 'a.z',
-                                  'd.l', 'n.m.o'])
+                                  'd.l', 'n.m.o', 'q.z', 'q.n', 'l.z', 'x.w', 'k.p', 'q.n.w',
+                                  'd.l.z'])
             spec[name] = self.eg.top()[0] if self.r.random() < 0.8 else \
                 self.r.choice([1, 0, True, None, 'lit', '$d', '$$ROOT', [1, 2], {'n': '$a'},
                                '$d.n', '$d.z', gen_expr.DATES[0], {'$literal': gen_expr.DATES[1]},
                                {'n': gen_expr.DATES[2]}])
         if self.r.random() < 0.03:
             spec = self.r.choice([{}, None, 'a', 5, []])
+        elif self.r.random() < 0.1:
+            # constants under dotted names, through documents, arrays and scalars
+            spec = {}
+            for name in self.r.sample(['q.z', 'l.z', 'd.l.z', 'x.w', 'k.p', 'd.z', 'n.m', 'a.z',
+                                       'q.n.w', 'm.v', 'r'], self.r.choice([1, 2, 3])):
+                spec[name] = self.r.choice([1, 0, 'lit', None, True, 2.5])
         elif self.r.random() < 0.12:
             # entries that read what other entries of the same stage write
             spec = self.r.choice([{'a': '$k', 'k': '$a'},
